@@ -403,50 +403,66 @@ func (f FunctionBuilder) Compile(ctx *cert.CertificateContext) (*pkix.Extension,
 // Extensions will not be checked here, since this is covered by the override errors
 // when calling Compile().
 func Validate(profile CertificateProfile, content CertificateContent) bool {
-	//check subject attributes
-	if profile.SubjectAttributes.Attributes != nil {
-		//reverse subject, since we are comparing against a string representation
-		subject := content.Subject
-		for i, j := 0, len(subject)-1; i < j; i, j = i+1, j-1 {
-			subject[i], subject[j] = subject[j], subject[i]
+	attrs := profile.SubjectAttributes.Attributes
+	if attrs == nil {
+		return true
+	}
+
+	//resolve the attribute types the profile asks for
+	wantOids := make([]asn1.ObjectIdentifier, len(attrs))
+	for i, attr := range attrs {
+		oid, err := GetRdnAttributeOid(attr.Attribute)
+		if err != nil {
+			//do we have a custom oid?
+			oid, err = cert.OidFromString(attr.Attribute)
+			if err != nil {
+				logging.Warningf("profile violation: can't resolve %v to a known attribute OID",
+					attr.Attribute)
+				return false
+			}
 		}
-		wantAttribute := 0
-		haveAttribute := 0
-		for {
-			if wantAttribute >= len(profile.SubjectAttributes.Attributes) ||
-				haveAttribute >= len(subject) {
+		wantOids[i] = oid
+	}
+
+	//the subject is stored in reverse order, but we are comparing against
+	//a string representation. so we read it backwards and leave it untouched.
+	subject := content.Subject
+	numHave := len(subject)
+
+	//without allowOther the subject attributes must be an in-order
+	//selection of the attributes listed in the profile
+	if !profile.SubjectAttributes.AllowOther {
+		want := 0
+		for have := 0; have < numHave; have++ {
+			haveAt := subject[numHave-1-have][0].Type
+			for want < len(wantOids) && !wantOids[want].Equal(haveAt) {
+				want++
+			}
+			if want >= len(wantOids) {
+				logging.Warningf("profile violation: attribute %v is not expected at this position and allowOther is false",
+					haveAt)
+				return false
+			}
+			want++
+		}
+	}
+
+	//every attribute that is not optional must be present
+	for i, attr := range attrs {
+		if attr.Optional {
+			continue
+		}
+
+		found := false
+		for have := 0; have < numHave; have++ {
+			if wantOids[i].Equal(subject[numHave-1-have][0].Type) {
+				found = true
 				break
 			}
-
-			currentAttribute := profile.SubjectAttributes.Attributes[wantAttribute].Attribute
-			wantAt, err := GetRdnAttributeOid(currentAttribute)
-			if err != nil {
-				//do we have a custom oid?
-				oid, err := cert.OidFromString(currentAttribute)
-				if err != nil {
-					logging.Warningf("profile violation: can't resolve %v to a known attribute OID",
-						currentAttribute)
-					return false
-				}
-				wantAt = oid
-			}
-
-			if wantAt.Equal(subject[haveAttribute][0].Type) {
-				wantAttribute++
-				haveAttribute++
-			} else {
-				if profile.SubjectAttributes.AllowOther {
-					haveAttribute++
-				} else {
-					logging.Warningf("profile violation: expected %v at this position, but got %v and allowOther is false",
-						wantAt, subject[haveAttribute][0].Type)
-					return false
-				}
-			}
 		}
 
-		if haveAttribute < len(content.Subject) && !profile.SubjectAttributes.AllowOther {
-			logging.Warningf("profile violation: provided number of attributes larger than specified in profile while allowOther is false")
+		if !found {
+			logging.Warningf("profile violation: required attribute %v is missing", attr.Attribute)
 			return false
 		}
 	}
